@@ -580,6 +580,8 @@ pub fn hostile_names() -> Vec<String>
         format!("{}.", &valid[..42]), format!("{}-", &valid[..42]), format!("{} ", &valid[..42]).replace(' ', "%20"), format!("{}%2F", &valid[..40]),
         valid.to_uppercase().replace(|c: char| c.is_ascii_digit(), "-"), format!("x{}", valid), format!("{}x", valid), "history".into(), "cache".into(),
         "*".into(), "%2A".into(), "~".into(), "%7E".into(), "a b".replace(' ', "%20"), "\\..\\current_file_states".replace('\\', "%5C"),
+        "0".repeat(5000), "Z".repeat(10000), format!("{}{}", valid, valid), format!("/{}", valid), format!("{}//", valid), format!(".ruler/cache/{}", valid),
+        format!("%2e%2e%2f%2e%2e%2f{}", valid), format!("{}%0d%0aX-Injected:%201", &valid[..30]), "%".into(), "%zz".into(), "%c0%af".into(), "%ff%fe".into(),
     ];
     for i in [0usize, 1, 21, 42]
     {
